@@ -124,7 +124,8 @@ Print Assumptions C07_apply_masking_bounds_reproduces.
 (* ... and false otherwise: the masked read of the bounds looks at the attributes of the
    bounds variable only, apply_masking falls back on the parent's (open finding). *)
 Theorem C07_apply_masking_bounds_inherit_refuted :
-  exists db Ab Ap raw, apply_guard db Ab false = true /    apply_masking_bounds db db Ab Ap false raw <> Ok (read_model db Ab true false raw).
+  exists db Ab Ap raw, apply_guard db Ab false = true /\
+    apply_masking_bounds db db Ab Ap false raw <> Ok (read_model db Ab true false raw).
 Proof. exact apply_masking_bounds_inherit_refuted. Qed.
 Print Assumptions C07_apply_masking_bounds_inherit_refuted.
 
@@ -150,7 +151,8 @@ Proof. exact recorded_fill_same_default. Qed.
 Print Assumptions C07_recorded_fill_same_default.
 
 Theorem C07_recorded_fill_of_other_type_refuted :
-  exists rd d A raw, apply_guard d A false = true /    apply_masking_recorded rd d A false raw <> Ok (read_model d A true false raw).
+  exists rd d A raw, apply_guard d A false = true /\
+    apply_masking_recorded rd d A false raw <> Ok (read_model d A true false raw).
 Proof. exact recorded_fill_of_other_type_refuted. Qed.
 Print Assumptions C07_recorded_fill_of_other_type_refuted.
 
